@@ -769,6 +769,28 @@ class BTreePage(Page):
 
         super().__init__(version_interface, number)
 
+        """
+
+        Note:  A page has one place in one b-tree.  If a (damaged) child pointer leads to a page that was already
+               reached while the same b-tree is being built, everything below that page would be parsed again for every
+               path that leads to it, which takes time exponential in the number of pages involved.
+
+        """
+
+        pages_being_built = getattr(version_interface, "_b_tree_pages_being_built", None)
+        if pages_being_built is not None:
+            if number in pages_being_built:
+                log_message = (
+                    "B-tree page: {} in page version: {} for version: {} was reached a second time while "
+                    "parsing the same b-tree."
+                )
+                log_message = log_message.format(
+                    self.number, self.page_version_number, self.version_number
+                )
+                self._logger.error(log_message)
+                raise BTreePageParsingError(log_message)
+            pages_being_built.add(number)
+
         page = self._version_interface.get_page_data(self.number)
 
         self.page_type = None
